@@ -16,6 +16,8 @@ use c00sched::{Alarm, Exec, ThreadSpec, explore, now};
 use roto::{List, NoCtx, TypedFunc, Val};
 use vcore::{Cfg, Check, Cx, Finding, Meta, SUB_SETUP, Tier, Value, Violation, json};
 
+mod free;
+
 /// The operation menu. `a` is pre-filled to its capacity (4 elements: the next
 /// push relocates the buffer), `b` holds one element.
 #[derive(Clone, Copy, Debug, PartialEq, Eq)]
@@ -555,6 +557,66 @@ fn run_program(p: &Program, init: Init, bound: usize, scripts: &Scripts) -> (Pro
 
 // ------------------------------------------------------------ the check
 
+fn scheduled_units(cfg: &Cfg) -> usize {
+    all_programs(cfg.tier).len().div_ceil(PER_UNIT)
+}
+
+fn free_iters(cfg: &Cfg) -> u64 {
+    cfg.tier.pick(100_000, 1_000_000)
+}
+
+const FREE_ROUNDS: u64 = 3;
+
+/// One case of the supplementary free-running pass (free.rs), FREE_ROUNDS times.
+fn run_free(i: usize, cx: &mut Cx) {
+    if !cx.case(SUB_SETUP) {
+        return;
+    }
+    roto::verif::set_sink(None);
+    let rt = host::runtime();
+    let mut pkg = match host::compile(&rt, free::SCRIPT) {
+        Ok(p) => p,
+        Err(e) => {
+            cx.violation("compile", SUB_SETUP, json!(free::SCRIPT), json!("compiles"), json!(format!("{e:?}")));
+            return;
+        }
+    };
+    let scripts = std::sync::Arc::new(free::Scripts {
+        gu: pkg.get_function("gu").expect("gu"),
+        gs: pkg.get_function("gs").expect("gs"),
+        cu: pkg.get_function("cu").expect("cu"),
+        js: pkg.get_function("js").expect("js"),
+    });
+    let case = free::cases()[i];
+    for round in 0..FREE_ROUNDS {
+        if !cx.case(round) {
+            continue;
+        }
+        match free::run(case, free_iters(&cx.cfg), &scripts) {
+            Ok(n) => cx.count("free_running_operations", n),
+            Err(e) => {
+                // the observed part must not depend on the run (a replay compares it): which
+                // operation saw the broken invariant; the values go into the case
+                let stable: String = e.chars().take_while(|c| !"(=0123456789".contains(*c)).collect();
+                cx.violation(
+                    "free-running-invariant",
+                    round,
+                    json!({"pass": "free-running (not exhaustive: a replay re-runs the case and usually, not always, reproduces)",
+                           "element_type": format!("{:?}", case.elem),
+                           "threads": [case.writer.name(), case.writer.name(), case.other.name(), case.other.name()],
+                           "ops": [format!("{:?}", case.writer), format!("{:?}", case.other)],
+                           "message_of_this_run": e}),
+                    json!("an invariant of every linearizable execution (swaps permute, pushes append)"),
+                    json!(format!("invariant broken, seen by: {}", stable.trim())),
+                );
+                break;
+            }
+        }
+    }
+    cx.count("free_running_cases", 1);
+    cx.request_restart();
+}
+
 struct C16;
 
 impl Check for C16 {
@@ -562,7 +624,7 @@ impl Check for C16 {
         "C16"
     }
     fn units(&self, cfg: &Cfg) -> usize {
-        all_programs(cfg.tier).len().div_ceil(PER_UNIT)
+        scheduled_units(cfg) + free::cases().len()
     }
     fn case_timeout_s(&self, cfg: &Cfg) -> f64 {
         cfg.tier.pick(120.0, 600.0)
@@ -572,6 +634,9 @@ impl Check for C16 {
         hook_lint()
     }
     fn run_unit(&self, unit: usize, cx: &mut Cx) {
+        if unit >= scheduled_units(&cx.cfg) {
+            return run_free(unit - scheduled_units(&cx.cfg), cx);
+        }
         let progs = all_programs(cx.cfg.tier);
         let sh = shapes(cx.cfg.tier);
         if !cx.case(SUB_SETUP) {
@@ -662,6 +727,13 @@ impl Check for C16 {
         cx.request_restart();
     }
     fn describe(&self, cfg: &Cfg, unit: usize, sub: u64) -> Value {
+        if unit >= scheduled_units(cfg) {
+            let c = free::cases()[unit - scheduled_units(cfg)];
+            return json!({"pass": "free-running (not exhaustive)", "element_type": format!("{:?}", c.elem),
+                          "threads": [c.writer.name(), c.writer.name(), c.other.name(), c.other.name()],
+                          "ops": [format!("{:?}", c.writer), format!("{:?}", c.other)],
+                          "iterations_per_thread": free_iters(cfg), "round": sub});
+        }
         if sub == SUB_SETUP {
             return json!({"setup": SCRIPT});
         }
@@ -696,7 +768,7 @@ impl Check for C16 {
     fn meta(&self, cfg: &Cfg) -> Meta {
         let sh = shapes(cfg.tier);
         Meta {
-            rule: "all programs of the stated shapes over the operation menu (threads are symmetric: one representative per renaming), each under ALL schedules up to the preemption bound at lock-acquisition / element-pointer-use granularity; a program is non-trivial when different schedules give different observations (results or final contents)".into(),
+            rule: "DECIDING PART: all programs of the stated shapes over the operation menu (threads are symmetric: one representative per renaming), each under ALL schedules up to the preemption bound at lock-acquisition / element-pointer-use granularity; a program is non-trivial when different schedules give different observations (results or final contents). SUPPLEMENTARY PART (sampling, NOT exhaustive, never counted in states/transitions): a free-running pass on 4 unscheduled OS threads per (writer operation, other operation, element type) case, checked against invariants of every linearizable execution — it exists for the one class the scheduler cannot interleave, two threads wrongly admitted into the same critical section".into(),
             assumptions: vec![
                 "schedule points exist where hook lines are; the hook-coverage lint fails the check when a `.lock()` in list.rs has no hook line before it".into(),
                 "sequentially consistent memory (one thread runs at a time); Arc reference counting is std's and trusted".into(),
@@ -706,8 +778,10 @@ impl Check for C16 {
                     "menu": menu(cfg.tier, s).iter().map(|o| o.name()).collect::<Vec<_>>(),
                     "preemption_bound": if bound(cfg.tier, s) == usize::MAX { json!("unbounded") } else { json!(bound(cfg.tier, s)) }})).collect::<Vec<_>>(),
                 "initial": [{"a": [1,2,3,4], "a_capacity": 4, "b": [5]}, {"a": [7], "b": []}],
+                "free_running_pass": {"exhaustive": false, "cases": free::cases().len(), "threads": 4,
+                                      "iterations_per_thread": free_iters(cfg), "rounds": FREE_ROUNDS},
             }),
-            states_are: "complete schedules explored".into(),
+            states_are: "complete schedules explored (the free-running pass adds none)".into(),
             transitions_are: "schedule points passed".into(),
         }
     }
